@@ -11,10 +11,10 @@ using namespace squids;
 #define C09_NPARTS 1
 #endif
 
-enum OpId { ADD_LL, ADD_RL, ADD_LR, ADD_RR, SUB_LL, SUB_RL, NEG_L, NEG_R, MULS_L, MULS_R, SMUL_L, SMUL_R, ICOMM, ACOMM, EVOL, FEVOL, EW_LL, EW_RL, EW_LR, EW_RR, N_OPS };
+enum OpId { ADD_LL, ADD_RL, ADD_LR, ADD_RR, SUB_LL, SUB_RL, NEG_L, NEG_R, MULS_L, MULS_R, SMUL_L, SMUL_R, ICOMM, ACOMM, EVOL, FEVOL, EW_LL, EW_RL, EW_LR, EW_RR, SUB_LR, SUB_RR, N_OPS };
 enum Kind { K_ASSIGN, K_INC, K_DEC, K_CONSTRUCT, N_KINDS };
 static const char* OPNAME[] = {"a+b", "move(a)+b", "a+move(b)", "move(a)+move(b)", "a-b", "move(a)-b", "-a", "-move(a)", "a*s", "move(a)*s", "s*a", "s*move(a)", "iCommutator(a,b)", "ACommutator(a,b)", "a.Evolve(b,t)", "a.Evolve(buffer)",
-                               "EW(f,a,b)", "EW(f,move(a),b)", "EW(f,a,move(b))", "EW(f,move(a),move(b))"};
+                               "EW(f,a,b)", "EW(f,move(a),b)", "EW(f,a,move(b))", "EW(f,move(a),move(b))", "a-move(b)", "move(a)-move(b)"};
 static const char* KINDNAME[] = {"v = ", "v += ", "v -= ", "SU_vector v("};
 
 struct Env { double s, t; const double* evbuf; };
@@ -23,7 +23,7 @@ struct NonComm { double operator()(double x, double y) const { return x - 2 * y;
 template <int OP> struct Mk;
 #define MK(OP, TYPE, EXPR) template <> struct Mk<OP> { typedef TYPE type; static TYPE make(SU_vector& a, SU_vector& b, const Env& e) { (void)b; (void)e; return EXPR; } };
 MK(ADD_LL, detail::AdditionProxy, a + b) MK(ADD_RL, detail::AdditionProxy, std::move(a) + b) MK(ADD_LR, detail::AdditionProxy, a + std::move(b)) MK(ADD_RR, detail::AdditionProxy, std::move(a) + std::move(b))
-MK(SUB_LL, detail::SubtractionProxy, a - b) MK(SUB_RL, detail::SubtractionProxy, std::move(a) - b)
+MK(SUB_LL, detail::SubtractionProxy, a - b) MK(SUB_RL, detail::SubtractionProxy, std::move(a) - b) MK(SUB_LR, detail::SubtractionProxy, a - std::move(b)) MK(SUB_RR, detail::SubtractionProxy, std::move(a) - std::move(b))
 MK(NEG_L, detail::NegationProxy, -a) MK(NEG_R, detail::NegationProxy, -std::move(a))
 MK(MULS_L, detail::MultiplicationProxy, a * e.s) MK(MULS_R, detail::MultiplicationProxy, std::move(a) * e.s)
 MK(SMUL_L, detail::MultiplicationProxy, e.s * a) MK(SMUL_R, detail::MultiplicationProxy, e.s * std::move(a))
@@ -61,7 +61,7 @@ template <int OP, bool MINE> struct RegIf { static void go() {} };
 template <int OP> struct RegIf<OP, true> { static void go() { reg_op<OP>(); } };
 #define REG(OP) RegIf<OP, (OP % C09_NPARTS) == C09_PART>::go();
 void CAT(c09_register_part, C09_PART)() {
-  REG(ADD_LL) REG(ADD_RL) REG(ADD_LR) REG(ADD_RR) REG(SUB_LL) REG(SUB_RL) REG(NEG_L) REG(NEG_R) REG(MULS_L) REG(MULS_R) REG(SMUL_L) REG(SMUL_R) REG(ICOMM) REG(ACOMM) REG(EVOL) REG(FEVOL) REG(EW_LL) REG(EW_RL) REG(EW_LR) REG(EW_RR)
+  REG(ADD_LL) REG(ADD_RL) REG(ADD_LR) REG(ADD_RR) REG(SUB_LL) REG(SUB_RL) REG(NEG_L) REG(NEG_R) REG(MULS_L) REG(MULS_R) REG(SMUL_L) REG(SMUL_R) REG(ICOMM) REG(ACOMM) REG(EVOL) REG(FEVOL) REG(EW_LL) REG(EW_RL) REG(EW_LR) REG(EW_RR) REG(SUB_LR) REG(SUB_RR)
 }
 
 
@@ -71,15 +71,15 @@ void CAT(c09_register_part, C09_PART)() {
 DECLP(1) DECLP(2) DECLP(3) DECLP(4) DECLP(5) DECLP(6) DECLP(7) DECLP(8) DECLP(9) DECLP(10) DECLP(11) DECLP(12) DECLP(13) DECLP(14) DECLP(15)
 
 static bool op_unary(int op) { return op == NEG_L || op == NEG_R || op == MULS_L || op == MULS_R || op == SMUL_L || op == SMUL_R || op == FEVOL; }
-static bool op_rv_a(int op) { return op == ADD_RL || op == ADD_RR || op == SUB_RL || op == NEG_R || op == MULS_R || op == SMUL_R || op == EW_RL || op == EW_RR; }
-static bool op_rv_b(int op) { return op == ADD_LR || op == ADD_RR || op == EW_LR || op == EW_RR; }
+static bool op_rv_a(int op) { return op == ADD_RL || op == ADD_RR || op == SUB_RL || op == NEG_R || op == MULS_R || op == SMUL_R || op == EW_RL || op == EW_RR || op == SUB_RR; }
+static bool op_rv_b(int op) { return op == ADD_LR || op == ADD_RR || op == EW_LR || op == EW_RR || op == SUB_LR || op == SUB_RR; }
 static bool op_elementwise(int op) { return !(op == ICOMM || op == ACOMM || op == EVOL || op == FEVOL); }
 
 // naive evaluation: lvalue operands, no guarantees, fresh temporary
 static SU_vector naive(int op, SU_vector& a, SU_vector& b, const Env& e) {
   switch (op) {
     case ADD_LL: case ADD_RL: case ADD_LR: case ADD_RR: { SU_vector r(a + b); return r; }
-    case SUB_LL: case SUB_RL: { SU_vector r(a - b); return r; }
+    case SUB_LL: case SUB_RL: case SUB_LR: case SUB_RR: { SU_vector r(a - b); return r; }
     case NEG_L: case NEG_R: { SU_vector r(-a); return r; }
     case MULS_L: case MULS_R: { SU_vector r(a * e.s); return r; }
     case SMUL_L: case SMUL_R: { SU_vector r(e.s * a); return r; }
